@@ -89,8 +89,40 @@ def _env():
             AesLog.CALLS.append((self.key, nonce, data, aad, out))
             return out
 
+    class SymEnviron:
+        """Process environment as an input: every variable the code asks for is absent or set (solver's choice), consistently within a
+        path; recorded as leaf env_<NAME> so that a replay sets the same environment."""
+
+        VALUES = [None, "1", "1700000000"]
+
+        def __init__(self):
+            self.seen = {}
+
+        def _lookup(self, name):
+            if name not in self.seen:
+                self.seen[name] = chx.pick("env_" + name, self.VALUES)
+            return self.seen[name]
+
+        def get(self, name, default=None):
+            v = self._lookup(name)
+            return default if v is None else v
+
+        def __getitem__(self, name):
+            v = self._lookup(name)
+            if v is None:
+                raise KeyError(name)
+            return v
+
+        def __contains__(self, name):
+            return self._lookup(name) is not None
+
     class OsProxy:
         path = os.path
+        environ = SymEnviron()
+
+        @staticmethod
+        def getenv(name, default=None):
+            return OsProxy.environ.get(name, default)
 
         @staticmethod
         def urandom(n):
@@ -101,6 +133,29 @@ def _env():
         def __getattr__(self, k):
             return getattr(os, k)
 
+    class SecretsProxy:
+        """secrets module: the same entropy log as os.urandom (kind, size, value)."""
+
+        @staticmethod
+        def token_bytes(n=32):
+            return OsProxy.urandom(n)
+
+        @staticmethod
+        def randbits(k):
+            r = chx.sym_int("randbits%d" % len(AesLog.URANDOM), 0, 2**k - 1)
+            AesLog.URANDOM.append((("bits", k), r))
+            return r
+
+        def __getattr__(self, k):
+            import secrets as _s
+
+            return getattr(_s, k)
+
+    import secrets as _secrets
+
+    BK.secrets = SecretsProxy()  # seen by `import secrets` inside functions as well: sys.modules entry below
+    _secrets.randbits = SecretsProxy.randbits
+    _secrets.token_bytes = SecretsProxy.token_bytes
     BK.AESGCM = AESGCMStub
     BK.os = OsProxy()
     BK.open = fs.open
@@ -108,13 +163,23 @@ def _env():
     SE.open = fs.open
     CE.open = fs.open
 
-    def init_kms_backend(self, kms_script, context):
-        self.kms = BK.SuitKMS()
-        self.kms.keys_directory = pathlib.Path("/keys")
-
-    ES.Encryptor.init_kms_backend = init_kms_backend
+    # the KMS script loader returns the (stubbed) basic_kms module itself: Encryptor.init_kms_backend, SuitKMS.init_kms and
+    # parse_context stay the real code.  With context None the KMS looks for keys next to its own file: that directory is /keys here.
+    ES._import_module_from_path = lambda module_name, file_path: BK
+    BK.__file__ = "/keys/basic_kms.py"
     CE._import_encryptor = lambda script: ES.Encryptor()
+    _ENVSTATE["environ"] = OsProxy.environ
     return BK, ES, CE, SE, fs, stubs
+
+
+_ENVSTATE = {}
+
+
+def reset_environment():
+    """Start of a path: the environment model forgets the answers of the previous path."""
+    env = _ENVSTATE.get("environ")
+    if env is not None:
+        env.seen = {}
 
 
 def ref_info(refenc, kid, iv):
@@ -143,6 +208,7 @@ def h_encrypt(cli=False, exclude=(), fix=None, deep=False):
 
     def harness():
         cbormodel.reset()
+        reset_environment()
         stubs.HashLog.reset()
         AesLog.CALLS, AesLog.URANDOM = [], []
         kid = chx.sym_int("key_id", 0, 2**32 - 1)
@@ -229,6 +295,7 @@ def h_info_roundtrip(exclude=()):
 
     def harness():
         cbormodel.reset()
+        reset_environment()
         stubs.HashLog.reset()
         AesLog.CALLS, AesLog.URANDOM = [], []
         kid = chx.sym_int("key_id", 0, 2**32 - 1)
